@@ -106,12 +106,16 @@ func judgeC14Comp(c C14CompCase) *Fail {
 	for k := range want {
 		for _, cv := range c.Crit {
 			g, has := got[k][cv.Id]
-			if !has || !closeRel(g, want[k][cv.Id]) {
+			rlo, rhi := snap.rangeOf(cv.Id)
+			// min + r x range: a few ulps of the bounds, no absolute floor (a range may be narrower than 1e-9)
+			if !has || math.Abs(g-want[k][cv.Id]) > 1e-9*math.Max(math.Abs(rlo), math.Abs(rhi)) {
 				return failf("threshold-at-fraction-of-range", "level %d criterion %s: threshold %v, documented series gives %v (levels %v)", k, cv.Id, g, want[k][cv.Id], want)
 			}
 			if k > 0 {
 				lo, hi := snap.rangeOf(cv.Id)
-				if hi > lo {
+				// the series of fractions r is strictly monotone; so are the thresholds wherever two successive ones
+				// are further apart than the rounding of min + r x range (a range may be far narrower than its bounds)
+				if hi > lo && math.Abs(want[k][cv.Id]-want[k-1][cv.Id]) > 2e-9*math.Max(math.Abs(lo), math.Abs(hi)) {
 					up := c.Increasing != cv.Cost
 					if (up && !(g > got[k-1][cv.Id])) || (!up && !(g < got[k-1][cv.Id])) {
 						return failf("strictly-monotone", "criterion %s: level %d threshold %v after %v", cv.Id, k, g, got[k-1][cv.Id])
@@ -233,16 +237,33 @@ func genC14Comp(t *rapid.T) C14CompCase {
 		mn, mx := math.Inf(1), math.Inf(-1)
 		degenerate := g.Chance(1, 6)
 		base := genValue(g, mode)
+		// any criterion ranges: also ranges narrower than 1e-9 - the same values in a unit 2^40 times larger
+		// (values of magnitude 1e-12), or packed next to one another (base + v x 2^-36)
+		shape := 0
+		if g.Rare(3) {
+			shape = g.Int(1, 2)
+		}
+		tiny := 1 / float64(int64(1)<<40)
 		for i := range alts {
 			v := genValue(g, mode)
 			if degenerate {
 				v = base
 			}
+			switch shape {
+			case 1:
+				v *= tiny
+			case 2:
+				v = base + v/float64(int64(1)<<36)
+			}
 			alts[i].Vals[cv.Id] = v
 			mn, mx = math.Min(mn, v), math.Max(mx, v)
 		}
 		if g.Chance(1, 3) {
-			cv.HasRange, cv.Min, cv.Max = true, mn-float64(g.Int(0, 2)), mx+float64(g.Int(1, 2))
+			lo, hi := float64(g.Int(0, 2)), float64(g.Int(1, 2))
+			if shape != 0 {
+				lo, hi = lo*tiny, hi*tiny
+			}
+			cv.HasRange, cv.Min, cv.Max = true, mn-lo, mx+hi
 		}
 		c.Crit = append(c.Crit, cv)
 	}
